@@ -839,7 +839,7 @@ func TestC13(t *testing.T) {
 		Level: "exploration",
 		Rule: "Four case kinds (class kind:*). values: 1-6 fields, each a string (arbitrary bytes incl. empty, NUL, invalid UTF-8), int32 / int64 boundary or random, float64 by bit pattern (incl. -0, subnormal, +-max, +-Inf, NaN payloads), bool, time (year 1..9999, pre-epoch, nanoseconds, seven zone offsets), null via SetNil / SetStringP(nil) / SetTimeP(nil), string list with duplicates and empties, or a map nested <= 4 deep with lists, nil leaves, int and float32; written in one Update and read in a later View through the typed getters. " +
 			"checker: a baseline write of 2-6 fields, then a second write of different values under a MapFieldChecker selecting a drawn subset, through TypedBucket setters or PersistContext setters; exactly the selected fields may change. codec: EncodeStringSlice/DecodeStringSlice round trip on lists of 0-6 components (sizes around 127/128 and 4095/4096/4097) and injectivity on a second list that is random or a split/merge/insert-empty near miss; over-long components must be refused. unsupported: PutMap with an unsupported value kind (or nesting when not allowed) must return an error, not panic. " +
-			"Also generated: overwrites of top-level lists, GetAndSetStringList, nil MapFieldChecker, unstorable values nested below lists and maps. " +
+			"Also generated: overwrites of top-level lists, GetAndSetStringList, nil MapFieldChecker, unstorable values nested below lists and maps. Also: fields are looked at before they are written and read back inside the writing transaction through the same bucket object; SetRequiredString with blanks at either end. " +
 			"Non-trivial: a boundary / empty / null value, a nested container, a strict non-empty checker subset, a multi-component or over-long key. Distinct by hash of the case JSON.",
 		Assumptions: []string{"map keys are non-empty and differ from the reserved list-size marker", "NaN is compared by bit pattern"},
 		Gen:         genC13, Run: runC13,
